@@ -479,8 +479,9 @@ def main_check(module: Any, argv: list[str]) -> int:
         with open(out) as f:
             results.append(json.load(f))
     if harness_errors:
-        for k, txt in harness_errors:
-            print(f"HARNESS-ERROR shard={k}\n{txt}", file=sys.stderr)
+        k, txt = harness_errors[0]
+        print(f"HARNESS-ERROR in {len(harness_errors)} shard(s); first: shard={k}\n{txt[-1800:]}",
+              file=sys.stderr)
         return 2
 
     # merge
